@@ -455,28 +455,25 @@ theorem Writes.nodup_keys_dset {α : Type} (k : String) (v : α) (l : List (Stri
     subst hb
     exact fun e => hk (e ▸ ha)
 
-/-- the candles a new member manager is built from (`_validate_indicators`): the default manager's
-candles as they are when the member's timeframe is the Hexital's own, else handed over raw -/
-def memberRaw (htf atf : Option String) (dm : Manager F) : List (Candle F) :=
-  if atf == htf then dm.candles
-  else dm.candles.map fun c => ({ c.recoverClean with clean := none } : Candle F).reset
-
-/-- the manager a member with own timeframe `atf` / `secs` is attached to, given the default manager `dm` -/
-def IsMemberMgr (cfg : MgrCfg) (htf atf : Option String) (secs : Option Int) (dm m : Manager F) : Prop :=
+/-- the manager a member with own timeframe `atf` / `secs` is attached to by the constructor, given the
+candles `cs` as handed to the constructor (`source_candles`) and the default manager `dm`: the default manager
+when the member's key is "default" (no timeframe), else a manager with the member's timeframe built from `cs` –
+the manager of the standalone twin -/
+def IsMemberMgr (cfg : MgrCfg) (atf : Option String) (secs : Option Int) (cs : List (Candle F))
+    (dm m : Manager F) : Prop :=
   (atf.getD defaultKey = defaultKey ∧ m = dm) ∨
-  (atf.getD defaultKey ≠ defaultKey ∧ Manager.init { cfg with tf := secs } (memberRaw htf atf dm) = .ok m)
+  (atf.getD defaultKey ≠ defaultKey ∧ Manager.init { cfg with tf := secs } cs = .ok m)
 
-/-- what `_validate_indicators` maintains while attaching members: `dm` is the default manager; the
-manager under the member's key `K`, once it exists, is the one `IsMemberMgr` describes -/
+/-- what `_validate_indicators` maintains while the constructor attaches members: `dm` is the default manager;
+the manager under the member's key `K`, once it exists, is the one `IsMemberMgr` describes -/
 structure AttachInv (N : List String) (nm : String) (tree : Ind F) (dm : Manager F)
-    (cfg : MgrCfg) (htf atf : Option String) (secs : Option Int) (H : Hexital F) : Prop where
+    (cfg : MgrCfg) (atf : Option String) (secs : Option Int) (cs : List (Candle F)) (H : Hexital F) : Prop where
   hcfg : H.cfg = cfg
-  htfn : H.tfName = htf
   keysNodup : (H.indicators.map (·.1)).Nodup
   mgrNodup : (H.managers.map (·.1)).Nodup
   others : ∀ n hi, n ≠ nm → dlookup n H.indicators = some hi → ∀ k, k ∈ hi.tree.allNames → k ∈ N
   default : dlookup defaultKey H.managers = some dm
-  kmgr : ∀ m, dlookup (atf.getD defaultKey) H.managers = some m → IsMemberMgr cfg htf atf secs dm m
+  kmgr : ∀ m, dlookup (atf.getD defaultKey) H.managers = some m → IsMemberMgr cfg atf secs cs dm m
   self : ∀ hi, dlookup nm H.indicators = some hi →
     hi.tree = tree ∧ hi.mgrKey = atf.getD defaultKey ∧ hi.active = 0 ∧
     ∃ m, dlookup (atf.getD defaultKey) H.managers = some m
@@ -498,23 +495,23 @@ theorem Writes.getD_eq_of_ne {atf : Option String} {tf : String} (h : atf.getD d
   | some x => simp at h; rw [h]
 
 theorem AttachInv.attach {nm : String} {tree : Ind F} {dm : Manager F} {cfg : MgrCfg}
-    {htf atf : Option String} {secs : Option Int} {H H' : Hexital F}
-    (inv : AttachInv N nm tree dm cfg htf atf secs H) (m : Member F)
+    {atf : Option String} {secs : Option Int} {cs : List (Candle F)} {H H' : Hexital F}
+    (inv : AttachInv N nm tree dm cfg atf secs cs H) (m : Member F)
     (hself : m.tree.name = nm → m.tree = tree ∧ m.tfName = atf)
     (hoth : m.tree.name ≠ nm → ∀ k, k ∈ m.tree.allNames → k ∈ N)
     (hsecs : m.tfName = atf → atf.getD defaultKey ≠ defaultKey → m.tfSecs = secs)
-    (ha : H.attach m = .ok H') :
-    AttachInv N nm tree dm cfg htf atf secs H' ∧ m.tree.name ∈ H'.indicators.map (·.1) := by
+    (ha : H.attachFrom (some cs) m = .ok H') :
+    AttachInv N nm tree dm cfg atf secs cs H' ∧ m.tree.name ∈ H'.indicators.map (·.1) := by
   have key : ∀ (k : String) (ms : List (String × Manager F)), (ms.map (·.1)).Nodup →
       dlookup defaultKey ms = some dm →
-      (∀ mm, dlookup (atf.getD defaultKey) ms = some mm → IsMemberMgr cfg htf atf secs dm mm) →
+      (∀ mm, dlookup (atf.getD defaultKey) ms = some mm → IsMemberMgr cfg atf secs cs dm mm) →
       (∀ mm, dlookup (atf.getD defaultKey) H.managers = some mm → dlookup (atf.getD defaultKey) ms = some mm) →
       (m.tree.name = nm → k = atf.getD defaultKey ∧ ∃ mm, dlookup (atf.getD defaultKey) ms = some mm) →
-      AttachInv N nm tree dm cfg htf atf secs
+      AttachInv N nm tree dm cfg atf secs cs
         (⟨H.cfg, H.tfName, ms, dset m.tree.name ⟨m.tree, k, 0⟩ H.indicators⟩ : Hexital F) ∧
       m.tree.name ∈ (dset m.tree.name (⟨m.tree, k, 0⟩ : HxInd F) H.indicators).map (·.1) := by
     intro k ms hms hdef hkm2 hpres hk
-    refine ⟨⟨inv.hcfg, inv.htfn, Writes.nodup_keys_dset _ _ _ inv.keysNodup, hms, ?_, hdef, hkm2, ?_⟩,
+    refine ⟨⟨inv.hcfg, Writes.nodup_keys_dset _ _ _ inv.keysNodup, hms, ?_, hdef, hkm2, ?_⟩,
       Writes.mem_keys_of_lookup (dlookup_dset_self _ _ _)⟩
     · intro n hi hn hl
       dsimp only at hl
@@ -533,7 +530,7 @@ theorem AttachInv.attach {nm : String} {tree : Ind F} {dm : Manager F} {cfg : Mg
       · simp only [e, if_false] at hl
         obtain ⟨q1, q2, q3, mm, q4⟩ := inv.self hi hl
         exact ⟨q1, q2, q3, mm, hpres mm q4⟩
-  unfold Hexital.attach at ha
+  unfold Hexital.attachFrom at ha
   split at ha
   · -- no timeframe of its own: the default manager
     rename_i htfn
@@ -554,23 +551,22 @@ theorem AttachInv.attach {nm : String} {tree : Ind F} {dm : Manager F} {cfg : Mg
       cases hq : dlookup (atf.getD defaultKey) H.managers with
       | some mm => exact ⟨mm, rfl⟩
       | none => rw [hKt] at hq; simp [dhas, hq] at hdh
-    · -- a new manager is created from the default manager's candles
+    · -- a new manager is created from the candles as given to the constructor
       rename_i hdh
-      obtain ⟨dm', hdm', ha⟩ := Writes.bind_ok ha
+      obtain ⟨raw, hraw, ha⟩ := Writes.bind_ok ha
       obtain ⟨nmgr, hnm, ha⟩ := Writes.bind_ok ha
       cases ha
-      have hdm'' := Hexital.manager_eq_ok hdm'
-      rw [inv.default] at hdm''
-      cases hdm''
+      have hraw' : (Except.ok cs : PyM (List (Candle F))) = .ok raw := hraw
+      cases hraw'
       have htfne : ¬ tf = defaultKey := by
         intro e; apply hdh; rw [e]; simp [dhas, inv.default]
-      have hnew : tf = atf.getD defaultKey → IsMemberMgr cfg htf atf secs dm nmgr := by
+      have hnew : tf = atf.getD defaultKey → IsMemberMgr cfg atf secs cs dm nmgr := by
         intro e
         have hKne : atf.getD defaultKey ≠ defaultKey := e ▸ htfne
         have hatf : atf = some tf := Writes.getD_eq_of_ne e.symm htfne
         have hs := hsecs (htf'.trans hatf.symm) hKne
-        have : Manager.init { H.cfg with tf := m.tfSecs } (memberRaw H.tfName m.tfName dm) = .ok nmgr := hnm
-        rw [inv.hcfg, inv.htfn, hs, htf', ← hatf] at this
+        have : Manager.init { H.cfg with tf := m.tfSecs } cs = .ok nmgr := hnm
+        rw [inv.hcfg, hs] at this
         exact Or.inr ⟨hKne, this⟩
       refine key _ _ (Writes.nodup_keys_dset _ _ _ inv.mgrNodup) ?_ ?_ ?_ ?_
       · rw [dlookup_dset]; simp only [htfne, if_false]; exact inv.default
@@ -592,10 +588,10 @@ theorem AttachInv.attach {nm : String} {tree : Ind F} {dm : Manager F} {cfg : Mg
         simp only [hKt, if_true]
 
 theorem AttachInv.fold {nm : String} {tree : Ind F} {dm : Manager F} {cfg : MgrCfg}
-    {htf atf : Option String} {secs : Option Int} :
-    ∀ (ms : List (Member F)) (H H' : Hexital F), AttachInv N nm tree dm cfg htf atf secs H →
-      MembersOK N nm tree atf secs ms → ms.foldlM Hexital.attach H = .ok H' →
-      AttachInv N nm tree dm cfg htf atf secs H' ∧
+    {atf : Option String} {secs : Option Int} {cs : List (Candle F)} :
+    ∀ (ms : List (Member F)) (H H' : Hexital F), AttachInv N nm tree dm cfg atf secs cs H →
+      MembersOK N nm tree atf secs ms → ms.foldlM (Hexital.attachFrom (some cs)) H = .ok H' →
+      AttachInv N nm tree dm cfg atf secs cs H' ∧
       ((nm ∈ H.indicators.map (·.1) ∨ ∃ m, m ∈ ms ∧ m.tree.name = nm) → nm ∈ H'.indicators.map (·.1)) := by
   intro ms
   induction ms with
@@ -618,7 +614,7 @@ theorem AttachInv.fold {nm : String} {tree : Ind F} {dm : Manager F} {cfg : MgrC
     have hkeep : nm ∈ H.indicators.map (·.1) → nm ∈ H1.indicators.map (·.1) := by
       intro hm
       -- attaching only adds or overwrites keys
-      unfold Hexital.attach at e1
+      unfold Hexital.attachFrom at e1
       have keep : ∀ (k : String) (v : HxInd F), nm ∈ (dset k v H.indicators).map (·.1) := by
         intro k v
         cases hq : dlookup nm (dset k v H.indicators) with
@@ -643,13 +639,12 @@ theorem AttachInv.fold {nm : String} {tree : Ind F} {dm : Manager F} {cfg : MgrC
       · exact Or.inr ⟨m', e, hn'⟩
 
 /-- the manager a member with own timeframe `atf` / `secs` ends up on when the Hexital is constructed
-(`cfg`, timeframe name `htf`) from `cs`: the default manager, or a manager over the default manager's
-candles with the member's timeframe -/
-def twinManager (cfg : MgrCfg) (htf atf : Option String) (secs : Option Int) (cs : List (Candle F)) :
-    PyM (Manager F) := do
-  let dm ← Manager.init cfg cs
-  if atf.getD defaultKey = defaultKey then pure dm
-  else Manager.init { cfg with tf := secs } (memberRaw htf atf dm)
+(`cfg`) from `cs`: the default manager, or – the member's key being new – a manager with the member's
+timeframe over the candles as given to the constructor, i.e. THE MANAGER OF THE STANDALONE TWIN -/
+def twinManager (cfg : MgrCfg) (atf : Option String) (secs : Option Int) (cs : List (Candle F)) :
+    PyM (Manager F) :=
+  if atf.getD defaultKey = defaultKey then Manager.init cfg cs
+  else Manager.init { cfg with tf := secs } cs
 
 /-- **Construction**: `Hexital(candles, indicators=[…])` against the twin over `twinManager` -/
 theorem TwinInv.init (cfg : MgrCfg) (htf : Option String) (cs : List (Candle F)) (members : List (Member F))
@@ -657,13 +652,13 @@ theorem TwinInv.init (cfg : MgrCfg) (htf : Option String) (cs : List (Candle F))
     (hok : MembersOK N nm tree atf secs (Hexital.dedupe members))
     (hmem : ∃ m, m ∈ Hexital.dedupe members ∧ m.tree.name = nm) (H : Hexital F)
     (hinit : Hexital.init cfg htf cs members = .ok H) :
-    ∃ km, twinManager cfg htf atf secs cs = .ok km ∧
+    ∃ km, twinManager cfg atf secs cs = .ok km ∧
       TwinInv N nm (atf.getD defaultKey) ({ tree := tree, mgr := km } : IndState F) H := by
   unfold Hexital.init at hinit
   obtain ⟨dm, hdm, hfold⟩ := Writes.bind_ok hinit
-  have inv0 : AttachInv N nm tree dm cfg htf atf secs
+  have inv0 : AttachInv N nm tree dm cfg atf secs cs
       ({ cfg := cfg, tfName := htf, managers := [(defaultKey, dm)], indicators := [] } : Hexital F) :=
-    ⟨rfl, rfl, by simp, by simp, fun n hi _ hl => by simp at hl, by simp [dlookup],
+    ⟨rfl, by simp, by simp, fun n hi _ hl => by simp at hl, by simp [dlookup],
      fun m hl => (by
        simp only [dlookup] at hl
        split at hl
@@ -679,17 +674,16 @@ theorem TwinInv.init (cfg : MgrCfg) (htf : Option String) (cs : List (Candle F))
     refine ⟨km, ?_, inv.keysNodup, inv.mgrNodup, inv.others,
       ⟨hi, km, hl, h2, h4, ⟨h1.symm, h3.symm, rfl, StripEq.refl _ _⟩⟩⟩
     unfold twinManager
-    rw [hdm]
     rcases inv.kmgr km h4 with ⟨e1, e2⟩ | ⟨e1, e2⟩
-    · subst e2; simp [e1, bind, Except.bind, pure, Except.pure]
-    · simp [e1, bind, Except.bind, e2]
+    · subst e2; rw [if_pos e1]; exact hdm
+    · rw [if_neg e1]; exact e2
 
 /-! ### `add_indicator` / `remove_indicator` aimed at other members -/
 
 /-- attaching ANOTHER member (different name, names within `N`) keeps the twin in step -/
-theorem TwinInv.attach_other {nm K : String} {s : IndState F} {H H' : Hexital F} (inv : TwinInv N nm K s H)
-    (m : Member F) (hn : m.tree.name ≠ nm) (hN : ∀ k, k ∈ m.tree.allNames → k ∈ N)
-    (ha : H.attach m = .ok H') : TwinInv N nm K s H' := by
+theorem TwinInv.attachFrom_other {nm K : String} {s : IndState F} {H H' : Hexital F} (inv : TwinInv N nm K s H)
+    (src : Option (List (Candle F))) (m : Member F) (hn : m.tree.name ≠ nm) (hN : ∀ k, k ∈ m.tree.allNames → k ∈ N)
+    (ha : H.attachFrom src m = .ok H') : TwinInv N nm K s H' := by
   obtain ⟨hi, dm, h1, h2, h3, h4⟩ := inv.member
   have key : ∀ (k : String) (ms : List (String × Manager F)), (ms.map (·.1)).Nodup →
       dlookup K ms = some dm →
@@ -705,20 +699,26 @@ theorem TwinInv.attach_other {nm K : String} {s : IndState F} {H H' : Hexital F}
         exact inv.others n hi2 hn2 hl
     · show dlookup nm (dset m.tree.name _ H.indicators) = some hi
       rw [dlookup_dset]; simp only [hn, if_false]; exact h1
-  unfold Hexital.attach at ha
+  unfold Hexital.attachFrom at ha
   split at ha
   · cases ha; exact key _ _ inv.mgrNodup h3
   · rename_i tf htf
     split at ha
     · cases ha; exact key _ _ inv.mgrNodup h3
     · rename_i hdh
-      obtain ⟨dm', _, ha⟩ := Writes.bind_ok ha
+      obtain ⟨raw, _, ha⟩ := Writes.bind_ok ha
       obtain ⟨nmgr, _, ha⟩ := Writes.bind_ok ha
       cases ha
       have htfne : ¬ tf = K := by
         intro e; apply hdh; rw [e]; simp [dhas, h3]
       refine key _ _ (Writes.nodup_keys_dset _ _ _ inv.mgrNodup) ?_
       rw [dlookup_dset]; simp only [htfne, if_false]; exact h3
+
+/-- … through `add_indicator` -/
+theorem TwinInv.attach_other {nm K : String} {s : IndState F} {H H' : Hexital F} (inv : TwinInv N nm K s H)
+    (m : Member F) (hn : m.tree.name ≠ nm) (hN : ∀ k, k ∈ m.tree.allNames → k ∈ N)
+    (ha : H.attach m = .ok H') : TwinInv N nm K s H' :=
+  inv.attachFrom_other none m hn hN ha
 
 theorem TwinInv.addIndicators {nm K : String} {s : IndState F} {H H' : Hexital F} (inv : TwinInv N nm K s H)
     (ms : List (Member F))
@@ -970,18 +970,26 @@ theorem Hexital.dedupe_unique (members : List (Member F)) (m m' : Member F)
   rw [l1] at l2
   cases l2; rfl
 
-/-- the twin of a member: a standalone indicator with the member's tree over the manager the member
-is attached to when the Hexital is constructed (`twinManager`) -/
-def twinInit (a : Member F) (cfg : MgrCfg) (htf : Option String) (init : List (Candle F)) : PyM (IndState F) := do
-  let km ← twinManager cfg htf a.tfName a.tfSecs init
+/-- the twin of a member handed to the constructor: a standalone indicator with the member's tree over the
+manager the member is attached to when the Hexital is constructed (`twinManager`) – with the member's own
+timeframe, if it has one, and built from the candles as given to the constructor -/
+def twinInit (a : Member F) (cfg : MgrCfg) (init : List (Candle F)) : PyM (IndState F) := do
+  let km ← twinManager cfg a.tfName a.tfSecs init
   pure { tree := a.tree, mgr := km }
 
 /-- for a member without its own timeframe the twin is the plain standalone indicator -/
-theorem twinInit_of_none (a : Member F) (hatf : a.tfName = none) (cfg : MgrCfg) (htf : Option String)
-    (init : List (Candle F)) : twinInit a cfg htf init = IndState.init a.tree cfg init := by
+theorem twinInit_of_none (a : Member F) (hatf : a.tfName = none) (cfg : MgrCfg)
+    (init : List (Candle F)) : twinInit a cfg init = IndState.init a.tree cfg init := by
   unfold twinInit twinManager IndState.init
   rw [hatf]
-  cases Manager.init cfg init <;> rfl
+  rfl
+
+/-- for a member WITH its own timeframe (whose name is not the manager key "default") the twin is the plain
+standalone indicator with that timeframe -/
+theorem twinInit_of_key (a : Member F) (hkey : a.tfName.getD defaultKey ≠ defaultKey) (cfg : MgrCfg)
+    (init : List (Candle F)) : twinInit a cfg init = IndState.init a.tree { cfg with tf := a.tfSecs } init := by
+  unfold twinInit twinManager IndState.init
+  rw [if_neg hkey]
 
 /-- construct a Hexital and drive it with a program -/
 def runHexital (cfg : MgrCfg) (tf : Option String) (init : List (Candle F)) (members : List (Member F))
@@ -989,16 +997,18 @@ def runHexital (cfg : MgrCfg) (tf : Option String) (init : List (Candle F)) (mem
   let h ← Hexital.init cfg tf init members
   ops.foldlM TwinOp.runHex h
 
-/-- construct the twin of a member and drive it with the same program -/
-def runTwin (a : Member F) (cfg : MgrCfg) (tf : Option String) (init : List (Candle F)) (ops : List (TwinOp F)) :
+/-- construct the twin of a member and drive it with the same program (`_tf`, the Hexital-level timeframe as
+written, plays no part any more: the twin's manager is built from the candles as given) -/
+def runTwin (a : Member F) (cfg : MgrCfg) (_tf : Option String) (init : List (Candle F)) (ops : List (TwinOp F)) :
     PyM (IndState F) := do
-  let s ← twinInit a cfg tf init
+  let s ← twinInit a cfg init
   ops.foldlM (TwinOp.runInd a.tree.name) s
 
 /-- **A member is in step with its twin.**  Build a Hexital from any members and drive it with any
 program of façade operations; for a member `a` whose tree neither writes under nor can read the names
 `N` of the other members: the twin – a standalone indicator with `a`'s tree over the manager `a` is
-attached to, driven with the same program (operations aimed at other members skipped) – succeeds too,
+attached to (`twinManager`: for a member with its own timeframe that is `Manager.init {cfg with tf} init`, the
+manager of the plain standalone indicator, see `twinInit_of_key`), driven with the same program (operations aimed at other members skipped) – succeeds too,
 and `TwinInv` holds at the end.  The program may add further members (other names, writing under `N`)
 and remove other members.  (`hsecs`: members sharing `a`'s timeframe name share its timeframe –
 vacuous for a member without a timeframe.) -/
